@@ -6,7 +6,9 @@
 -/
 namespace Scrapli.Lifecycle
 
-/-- exception classes that can leave an operation (all are subclasses of `Exception`) -/
+/-- exception classes that can leave an operation.  All but the last two are subclasses of `Exception`;
+    `baseExc` / `cancelled` can only be raised by the BODY of a with-block (`BodyOp.raiseExc`), never inside
+    a `try … except Exception` of the four methods -/
 inductive Exc
   | connError      -- ScrapliConnectionError
   | notOpened      -- ScrapliConnectionNotOpened
@@ -16,6 +18,9 @@ inductive Exc
   | hookError      -- whatever a user supplied on_open/on_close hook raises
   | bodyError      -- whatever the body of a with-block raises
   | closeError     -- whatever transport.close() itself raises (PtyProcessError "Could not terminate the child.")
+  | privError      -- ScrapliPrivilegeError (user code in a with-body)
+  | baseExc        -- a BaseException that is not an Exception (KeyboardInterrupt, SystemExit) raised in a with-body
+  | cancelled      -- asyncio.CancelledError reaching a with-body (asyncio stack)
 deriving Repr, DecidableEq, Inhabited
 
 inductive Outcome
@@ -104,12 +109,30 @@ deriving Repr, DecidableEq, Inhabited
 
 abbrev Prog := List Node
 
-/-- the four methods of one driver base class -/
+/-- the class named in an `issubclass(exception_type, <class>)` test of `__exit__` / `__aexit__` -/
+inductive ExcSel | timeout | connError | authFailed | scrapli | exception | baseException
+deriving Repr, DecidableEq, Inhabited
+
+/-- does the pending exception of kind `e` pass `issubclass(exception_type, sel)` (scrapli/exceptions.py: every scrapli
+    class derives from ScrapliException; ScrapliConnectionNotOpened / ScrapliAuthenticationFailed / ScrapliTimeout are
+    direct children of it, NOT of ScrapliConnectionError) -/
+def ExcSel.selects : ExcSel → Exc → Bool
+  | .timeout, e => e == .timeout
+  | .connError, e => e == .connError
+  | .authFailed, e => e == .authFailed
+  | .scrapli, e => e == .connError || e == .notOpened || e == .timeout || e == .authFailed || e == .privError
+  | .exception, e => !(e == .baseExc || e == .cancelled)
+  | .baseException, _ => true
+
+/-- the four methods of one driver base class.  `exitOn`: the early-return branches of `__exit__`
+    (`if exception_type is not None and issubclass(exception_type, C): <statements>; return`), in source order —
+    the program `__exit__` runs depends on the exception the with-body ended with; `exitP` is what runs otherwise -/
 structure Code where
   openP : Prog
   closeP : Prog
   enterP : Prog
   exitP : Prog
+  exitOn : List (ExcSel × Prog)
 deriving Repr, DecidableEq, Inhabited
 
 /-- the per-session fields of the two Telnet transports -/
